@@ -214,7 +214,12 @@ func (m *Model) checkSet(what string, got []kv, want []string) error {
 // Observe compares every observation the property lists for the given
 // universe of exact paths and query patterns.
 func (m *Model) Observe(t *ctree.Tree, paths, patterns [][]string) error {
-	for _, p := range paths {
+	// every lookup goes through ONE scratch slice that is overwritten for the next path (callers
+	// build paths in reused buffers): the tree must not keep, or key anything on, the caller's slice
+	var scratch []string
+	for _, orig := range paths {
+		scratch = append(scratch[:0], orig...)
+		p := scratch
 		k := key(p)
 		mv, isLeaf := m.leaves[k]
 		interior := m.IsInterior(p)
